@@ -109,9 +109,10 @@ def detect_scratch(wt, patch, ids, tier="quick"):
     cfg = open(f"{hdir}/.cargo/config.toml").read().replace('../target/harness', '/tmp/mh-target')
     open(f"{hdir}/.cargo/config.toml", "w").write(cfg)
     sh("git checkout -- . ; rm -rf tests", cwd=wt)
-    rc, out = sh(f"git apply {patch}", cwd=wt)
-    if rc != 0:
-        return {"error": "patch does not apply: " + out[-300:]}
+    if patch is not None:
+        rc, out = sh(f"git apply {patch}", cwd=wt)
+        if rc != 0:
+            return {"error": "patch does not apply: " + out[-300:]}
     results = {}
     try:
         rc, out = sh("cargo build --release 2>&1", cwd=hdir)
@@ -136,6 +137,11 @@ if __name__ == "__main__" and len(sys.argv) > 1 and sys.argv[1] == "screen":
     for mut in sys.argv[4:]:
         out[mut] = detect_scratch(wt, os.path.join(mut, "patch.diff"), ids)
         print(json.dumps({mut: out[mut]}, indent=1), flush=True)
+
+if __name__ == "__main__" and len(sys.argv) > 1 and sys.argv[1] == "clean":
+    # clean <worktree> <IDs comma separated> [tier]: the harness as it is now against an unpatched scratch worktree
+    print(json.dumps(detect_scratch(sys.argv[2], None, sys.argv[3].split(","), sys.argv[4] if len(sys.argv) > 4 else "quick"), indent=1))
+    sys.exit(0)
 
 if __name__ == "__main__" and (len(sys.argv) < 2 or sys.argv[1] != "screen"):
     main()
